@@ -582,7 +582,10 @@ class Machine:
             kw["mask"] = mask
             self.track(mask, "mask", site, "caller")
         if v == "directional" and d > 1:
-            kw["direction"] = self.alloc("direction", np.eye(d)[: rs.randint(1, d)], lay, site)
+            dirs = np.eye(d)[: rs.randint(1, d)] * rs.choice([1.0, 3.0, 0.25])
+            if rs.random() < 0.5:
+                dirs = dirs + 0.5 * rs.choice([1.0, -1.0])  # oblique, not unit length
+            kw["direction"] = self.alloc("direction", dirs, lay, site)
             kw["bandwidth"] = rs.choice([None, 2.0])
         if v == "normed":
             kw["mean"] = rs.choice([1.0, cm.make_fn("lin", d)])
